@@ -128,7 +128,7 @@ def _world(ctx, kinds, sym_fluent_bounds=False):
             prob.add_fluent(w.fl["U"])
         act = InstantaneousAction("a", _env=env, **{n.lower(): t for n, t in ptypes.items()})
         w.par = {n: act.parameter(n.lower()) for n in ptypes}
-    w.param_types = list(ptypes.values())
+    w.param_types = list(ptypes.values()) + (list(ftypes.values()) if sym_fluent_bounds else [])
     # an effect makes F0 / F1 non-static (f := f in a second action: type-compatible whatever the bounds are)
     with ctx.untraced():
         act2 = InstantaneousAction("b", _env=env)
@@ -341,11 +341,11 @@ def shards(tier, seed):
     sh("bin-real-param", "bin", [["F0", "R"], ["R", "F0"], ["F1", "R"]], [[o] for o in "+-*/"])
     sh("bin-symbolic-fluent-bounds", "bin", _combos(2, ["F0", "F1", "P0", "C", "Cd"]), [[o] for o in "+-*/"], sym_fluent_bounds=True)
     if quick:
+        Q3 = _combos(3, ["F0", "P0", "C", "Cd"]) + [["F0", "F1", "P0"], ["F0", "P0", "F1"], ["P0", "F0", "F1"], ["F0", "F1", "Cd"], ["F1", "F0", "C"]]
         for shape in ("left", "right"):
             for top in "+-*/":
-                sh(f"{shape}-top-{NM[top]}", shape, _combos(3, Q), [p for p in PAIRS if p[0] == top])
-        sh("nary3-plus", "nary3", _combos(3, Q + ["S"]), [["+"]])
-        sh("nary3-times", "nary3", _combos(3, Q + ["S"]), [["*"]])
+                sh(f"{shape}-top-{NM[top]}", shape, Q3, [p for p in PAIRS if p[0] == top])
+        sh("nary3", "nary3", Q3 + [["F0", "S", "P0"], ["S", "F0", "F1"]], [["+"], ["*"]])
     else:
         for shape in ("left", "right"):
             for p in PAIRS:
